@@ -376,11 +376,11 @@ def reduce(x, f, init, axis=None, kind=None, empty_ok=True):
     n = moved.shape[-1]
     if n == 0 and not empty_ok:
         raise ShapeError("reduction of empty axis")
-    flat2 = moved.reshape(-1, n) if n else moved.reshape(-1, 0)
-    out = []
     cnt = 1
     for s in oshape:
         cnt *= s
+    flat2 = moved.reshape(cnt, n)
+    out = []
     for i in range(cnt):
         row = list(flat2[i]) if n else []
         if not row:
